@@ -199,6 +199,9 @@ def run(prog, rep):
     import_verdicts(prog, rep, "C01", ("LOOP-1",), "LOOP-1",
                     "the XML reader collects the attributes of an element from the child nodes of that element alone")
     rep.extra["exhaustive"] = True
+    from .rules_lints import no_shared_fromkeys, enum_values_distinct
+    no_shared_fromkeys(prog, rep, "KEYS-1", ("odml.validation", "odml.section", "odml.property"))
+    enum_values_distinct(prog, rep, "ENUM-2", "IssueID", 10)
     rep.assume("ints behave like their order type: the functions only compare, type-test and render them")
 
 
